@@ -7,6 +7,7 @@ package c13
 
 import (
 	"bytes"
+	"encoding/json"
 	"fmt"
 	"io"
 	"sort"
@@ -20,6 +21,7 @@ import (
 	"github.com/EliCDavis/polyform/generator/parameter"
 	"github.com/EliCDavis/polyform/nodes"
 	"github.com/EliCDavis/polyform/refutil"
+	"github.com/EliCDavis/vector/vector3"
 	"github.com/anishathalye/porcupine"
 
 	"verif/internal/choice"
@@ -89,6 +91,62 @@ func (d MixData) Process() (string, error) {
 	return fmt.Sprintf("n%d(%s)", d.ID, strings.Join(parts, ",")), nil
 }
 
+// ArrLeafData turns an array parameter into a readable token, element by
+// element (so that a mixture of two arrays is visible).
+type ArrLeafData struct {
+	P   nodes.NodeOutput[[]vector3.Float64]
+	Idx int
+}
+
+func renderArr(idx int, a []vector3.Float64) string {
+	var parts []string
+	for _, v := range a {
+		parts = append(parts, fmt.Sprintf("(%g,%g,%g)", v.X(), v.Y(), v.Z()))
+	}
+	return fmt.Sprintf("p%d=[%s]", idx, strings.Join(parts, ""))
+}
+
+func (d ArrLeafData) Process() (string, error) {
+	return renderArr(d.Idx, d.P.Value()), nil
+}
+
+// pattern is the array a serial number stands for: 1-3 elements that all
+// carry the serial.
+func pattern(serial int) []vector3.Float64 {
+	n := 1 + serial%3
+	out := make([]vector3.Float64, n)
+	for i := range out {
+		out[i] = vector3.New(float64(serial), float64(i), float64(2*serial))
+	}
+	return out
+}
+
+// sliceArtifact keeps the slice it was given, as a mesh artifact keeps the
+// arrays of its mesh: what it writes out later must still be what it was
+// built from.
+type sliceArtifact struct {
+	text string
+	idx  int
+	pts  []vector3.Float64
+}
+
+func (t sliceArtifact) Write(w io.Writer) error {
+	_, err := w.Write([]byte(t.text + "+" + renderArr(t.idx, t.pts)))
+	return err
+}
+func (sliceArtifact) Mime() string { return "text/plain" }
+
+type ProdSliceData struct {
+	In  nodes.NodeOutput[string]
+	Pts nodes.NodeOutput[[]vector3.Float64]
+	Idx int
+}
+
+func (d ProdSliceData) Process() (artifact.Artifact, error) {
+	detsched.Yield("proc:produce", 1)
+	return sliceArtifact{text: d.In.Value(), idx: d.Idx, pts: d.Pts.Value()}, nil
+}
+
 type textArtifact struct{ data string }
 
 func (t textArtifact) Write(w io.Writer) error { _, err := w.Write([]byte(t.data)); return err }
@@ -122,12 +180,23 @@ type graphSpec struct {
 	// RealProducer: use the library's basics.TextNode instead of the
 	// harness producer for this producer
 	RealProducer []bool
+	// ParamKind: 0 int parameter, 1 vector3-array parameter
+	ParamKind []int
+	// SliceProducer[k] >= 0: producer k is a ProdSliceData that also keeps
+	// the array of that parameter
+	SliceProducer []int
+}
+
+func (g graphSpec) leaf(p int, st []int) string {
+	if p < len(g.ParamKind) && g.ParamKind[p] == 1 {
+		return renderArr(p, pattern(st[p]))
+	}
+	return fmt.Sprintf("p%d=%d", p, st[p])
 }
 
 func (g graphSpec) evalRef(r int, st []int) string {
 	if r < 0 {
-		p := -r - 1
-		return fmt.Sprintf("p%d=%d", p, st[p])
+		return g.leaf(-r-1, st)
 	}
 	return g.evalNode(r, st)
 }
@@ -138,11 +207,15 @@ func (g graphSpec) artifact(prod int, st []int) string {
 	cone := map[int]bool{}
 	g.paramsOf(g.Producers[prod], cone)
 	for p := range cone {
-		if st[p] >= poison {
+		if st[p] >= poison && g.ParamKind[p] == 0 {
 			return "PANIC"
 		}
 	}
-	return g.evalNode(g.Producers[prod], st)
+	out := g.evalNode(g.Producers[prod], st)
+	if sp := g.SliceProducer[prod]; sp >= 0 {
+		out += "+" + renderArr(sp, pattern(st[sp]))
+	}
+	return out
 }
 
 func (g graphSpec) evalNode(i int, st []int) string {
@@ -164,6 +237,7 @@ func genGraph(c choice.Chooser) graphSpec {
 	g := graphSpec{Params: 2 + c.Intn("g:params", 3)}
 	for p := 0; p < g.Params; p++ {
 		g.Init = append(g.Init, 1000+p)
+		g.ParamKind = append(g.ParamKind, choice.Pick(c, "g:paramkind", []int{3, 1}))
 	}
 	nn := 2 + c.Intn("g:nodes", 4)
 	pickRef := func(i int) int {
@@ -193,6 +267,15 @@ func genGraph(c choice.Chooser) graphSpec {
 			g.Producers = append(g.Producers, c.Intn("g:prodnode", nn))
 		}
 		g.RealProducer = append(g.RealProducer, choice.Bool(c, "g:realproducer"))
+		sp := -1
+		if !g.RealProducer[k] && choice.Bool(c, "g:sliceproducer") {
+			for p := 0; p < g.Params; p++ {
+				if g.ParamKind[p] == 1 {
+					sp = p
+				}
+			}
+		}
+		g.SliceProducer = append(g.SliceProducer, sp)
 	}
 	return g
 }
@@ -205,16 +288,24 @@ type built struct {
 
 func build(g graphSpec) built {
 	var b built
-	params := make([]*parameter.Value[int], g.Params)
-	leaves := make([]*nodes.Struct[string, LeafData], g.Params)
+	params := make([]nodes.Node, g.Params)
+	arrParams := make([]*parameter.Value[[]vector3.Float64], g.Params)
+	leaves := make([]nodes.NodeOutput[string], g.Params)
 	for p := range params {
-		params[p] = &parameter.Value[int]{Name: fmt.Sprintf("P%d", p), DefaultValue: g.Init[p]}
-		leaves[p] = &nodes.Struct[string, LeafData]{Data: LeafData{P: params[p].Out(), Idx: p}}
+		if g.ParamKind[p] == 1 {
+			ap := &parameter.Value[[]vector3.Float64]{Name: fmt.Sprintf("P%d", p), DefaultValue: pattern(g.Init[p])}
+			params[p], arrParams[p] = ap, ap
+			leaves[p] = (&nodes.Struct[string, ArrLeafData]{Data: ArrLeafData{P: ap.Out(), Idx: p}}).Out()
+		} else {
+			ip := &parameter.Value[int]{Name: fmt.Sprintf("P%d", p), DefaultValue: g.Init[p]}
+			params[p] = ip
+			leaves[p] = (&nodes.Struct[string, LeafData]{Data: LeafData{P: ip.Out(), Idx: p}}).Out()
+		}
 	}
 	ns := make([]*nodes.Struct[string, MixData], len(g.Nodes))
 	out := func(r int) nodes.NodeOutput[string] {
 		if r < 0 {
-			return leaves[-r-1].Out()
+			return leaves[-r-1]
 		}
 		return ns[r].Out()
 	}
@@ -235,6 +326,9 @@ func build(g graphSpec) built {
 			// the library's own text producer and artifact type: what it
 			// hands out must stay valid after the lock is released
 			b.inst.AddProducer(name, basics.NewTextNode(ns[ni].Out()))
+		} else if sp := g.SliceProducer[k]; sp >= 0 {
+			prod := &nodes.Struct[artifact.Artifact, ProdSliceData]{Data: ProdSliceData{In: ns[ni].Out(), Pts: arrParams[sp].Out(), Idx: sp}}
+			b.inst.AddProducer(name, prod.Out())
 		} else {
 			prod := &nodes.Struct[artifact.Artifact, ProdData]{Data: ProdData{In: ns[ni].Out()}}
 			b.inst.AddProducer(name, prod.Out())
@@ -307,6 +401,10 @@ func model(g *graphSpec) porcupine.Model {
 			case opBadUpdate:
 				return r.Err, st
 			case opRead:
+				if g.ParamKind[o.Param] == 1 {
+					want, _ := json.Marshal(pattern(st[o.Param]))
+					return r.Val == string(want), st
+				}
 				return r.Val == strconv.Itoa(st[o.Param]), st
 			default:
 				return r.Val == g.artifact(o.Prod, st[:]), st
@@ -340,8 +438,11 @@ func (Scenario) Run(c choice.Chooser, opt sim.Options) sim.Result {
 
 	// only parameters some producer depends on are part of the instance
 	reach := map[int]bool{}
-	for _, ni := range g.Producers {
+	for k, ni := range g.Producers {
 		g.paramsOf(ni, reach)
+		if sp := g.SliceProducer[k]; sp >= 0 {
+			reach[sp] = true
+		}
 	}
 	var usable []int
 	for p := 0; p < g.Params; p++ {
@@ -387,11 +488,21 @@ func (Scenario) Run(c choice.Chooser, opt sim.Options) sim.Result {
 				detsched.Yield("client:invoke", int64(k))
 				switch o.Kind {
 				case opUpdate:
-					_, err := b.inst.UpdateParameter(b.paramIDs[o.Param], []byte(strconv.Itoa(o.Value)))
+					msg := []byte(strconv.Itoa(o.Value))
+					if g.ParamKind[o.Param] == 1 {
+						msg, _ = json.Marshal(pattern(o.Value))
+					}
+					_, err := b.inst.UpdateParameter(b.paramIDs[o.Param], msg)
 					r.Err = err != nil
 					detsched.Yield("client:return", int64(k))
 				case opBadUpdate:
-					_, err := b.inst.UpdateParameter(b.paramIDs[o.Param], []byte("{not json"))
+					msg := []byte("{not json")
+					if g.ParamKind[o.Param] == 1 {
+						// a valid first element, then garbage: must be
+						// rejected as a whole
+						msg = []byte(fmt.Sprintf(`[{"x":%d,"y":7,"z":7},{"x":`, 7000+k))
+					}
+					_, err := b.inst.UpdateParameter(b.paramIDs[o.Param], msg)
 					r.Err = err != nil
 					detsched.Yield("client:return", int64(k))
 				case opRead:
